@@ -21,27 +21,32 @@ open OxiVerif.C10 (IsScalar utf16Dec utf16Enc)
 /-! ## T1 — ToUnicode blocks -/
 
 theorem takeRun_shape (rest : List Nat) : ∀ (last k e : Nat) (rem : List Nat),
-    takeRun last k rest = (e, rem) → last ≤ e ∧ rest = List.range' (last + 1) (e - last) ++ rem := by
+    takeRun last k rest = (e, rem) →
+    last ≤ e ∧ rest = List.range' (last + 1) (e - last) ++ rem ∧ (∀ i, last < i → i ≤ e → i % 256 ≠ 0) := by
   induction rest with
   | nil =>
     intro last k e rem h
     simp only [takeRun, Prod.mk.injEq] at h
     obtain ⟨rfl, rfl⟩ := h
-    simp
+    refine ⟨Nat.le_refl _, by simp, fun i h1 h2 => by omega⟩
   | cons x r ih =>
     intro last k e rem h
     unfold takeRun at h
     split at h
     · rename_i hc
-      simp only [Bool.and_eq_true, beq_iff_eq, decide_eq_true_eq] at hc
-      obtain ⟨hx, _⟩ := hc
-      obtain ⟨h1, h2⟩ := ih x (k + 1) e rem h
-      refine ⟨by omega, ?_⟩
-      have : e - last = (e - x) + 1 := by omega
-      rw [this, List.range'_succ, ← hx, List.cons_append, ← h2]
+      simp only [Bool.and_eq_true, beq_iff_eq, decide_eq_true_eq, bne_iff_ne, ne_eq] at hc
+      obtain ⟨⟨hx, hm⟩, _⟩ := hc
+      obtain ⟨h1, h2, h3⟩ := ih x (k + 1) e rem h
+      refine ⟨by omega, ?_, ?_⟩
+      · have : e - last = (e - x) + 1 := by omega
+        rw [this, List.range'_succ, ← hx, List.cons_append, ← h2]
+      · intro i hi1 hi2
+        by_cases hix : i = x
+        · subst hix; exact hm
+        · exact h3 i (by omega) hi2
     · simp only [Prod.mk.injEq] at h
       obtain ⟨rfl, rfl⟩ := h
-      simp
+      refine ⟨Nat.le_refl _, by simp, fun i h1 h2 => by omega⟩
 
 theorem lookup_genBlocks : ∀ (fuel : Nat) (l : List Nat), l.length < fuel → ∀ x,
     lookupBlocks (genBlocks fuel l) x = if x ∈ l then some x else none := by
@@ -56,7 +61,7 @@ theorem lookup_genBlocks : ∀ (fuel : Nat) (l : List Nat), l.length < fuel → 
       unfold genBlocks
       cases htr : takeRun c 0 rest with
       | mk e rem =>
-        obtain ⟨hce, hshape⟩ := takeRun_shape rest c 0 e rem htr
+        obtain ⟨hce, hshape, _⟩ := takeRun_shape rest c 0 e rem htr
         simp only
         have hremlen : rem.length < fuel := by
           have hlen := congrArg List.length hshape
@@ -119,7 +124,7 @@ theorem C13_tounicode_lookup (used : List Nat) (x : Nat) :
 
 example : toUnicodeBlocks [0x41, 0xFE, 0xFF, 0x100, 0x102] =
     [.chars [0x41, 0xFE, 0xFF, 0x100, 0x102]] ∧
-    toUnicodeBlocks [0xFE, 0xFF, 0x100, 0x102] = [.range 0xFE 0x100 0xFE, .chars [0x102]] := by decide
+    toUnicodeBlocks [0xFE, 0xFF, 0x100, 0x102] = [.range 0xFE 0xFF 0xFE, .chars [0x100, 0x102]] := by decide
 
 /-! ## T3 — what is shown is what is extracted -/
 
@@ -213,10 +218,48 @@ theorem C13_witness_astral :
     extract (toUnicodeBlocks (usedBmp [[0x41, 0x1F600]])) (showCodes [0x41, 0x1F600]) = [0x41] := by
   decide +kernel
 
-/-- Witness (conformance): consecutive used characters across a low-byte boundary are emitted as ONE
-bfrange whose destination's last byte overflows (FE + 2 > FF), against §9.10.3. -/
+/-- §9.10.3 "the last byte of the destination shall be ≤ 255 − (hi − lo)": holds for every bfrange the
+writer can emit, whatever the used code points. -/
+theorem C13_bfrange_last_byte (used : List Nat) :
+    ∀ b ∈ toUnicodeBlocks used, match b with
+      | .range lo hi dst => dst % 256 + (hi - lo) ≤ 255
+      | .chars _ => True := by
+  unfold toUnicodeBlocks
+  generalize used.length + 1 = fuel
+  induction fuel generalizing used with
+  | zero => intro b hb; simp [genBlocks] at hb
+  | succ fuel ih =>
+    intro b hb
+    cases used with
+    | nil => simp [genBlocks] at hb
+    | cons c rest =>
+      unfold genBlocks at hb
+      cases htr : takeRun c 0 rest with
+      | mk e rem =>
+        obtain ⟨hce, _, hno⟩ := takeRun_shape rest c 0 e rem htr
+        rw [htr] at hb
+        simp only at hb
+        split at hb
+        · rcases List.mem_cons.mp hb with h | h
+          · subst h
+            simp only
+            by_cases hw : c % 256 + (e - c) ≤ 255
+            · exact hw
+            · exfalso
+              exact hno (c - c % 256 + 256) (by omega) (by omega) (by omega)
+          · exact ih rem b h
+        · rcases List.mem_cons.mp hb with h | h
+          · subst h; trivial
+          · exact ih _ b h
+
+example : toUnicodeBlocks (usedBmp [[0xFD, 0xFE, 0xFF, 0x100, 0x101]]) = [.range 0xFD 0xFF 0xFD, .range 0x100 0x101 0x100] := by
+  decide +kernel
+
+/-- Regression (before the low-byte condition): consecutive used characters across a low-byte boundary
+were emitted as ONE bfrange whose destination's last byte overflows (FE + 2 > FF). -/
 theorem C13_witness_bfrange_low_byte :
-    toUnicodeBlocks (usedBmp [[0xFE, 0xFF, 0x100]]) = [.range 0xFE 0x100 0xFE] := by decide +kernel
+    toUnicodeBlocksOld (usedBmp [[0xFE, 0xFF, 0x100]]) = [.range 0xFE 0x100 0xFE] ∧
+    toUnicodeBlocks (usedBmp [[0xFE, 0xFF, 0x100]]) = [.range 0xFE 0xFF 0xFE, .chars [0x100]] := by decide +kernel
 
 /-! ## T2 — /W -/
 
